@@ -91,7 +91,11 @@ fn run<B: SimField, H: ElementHasher<BaseField = B> + Send + Sync + 'static>(
             return;
         },
         ProveOutcome::Panic(p) => {
-            if is_coin_exhaustion(&p.msg) {
+            // Exhausting the coin's 1000 attempts for one element is only conceivable where a
+            // candidate is accepted with probability 1/64 (cubic extension of the 62-bit field:
+            // (63/64)^1000 ~ 1e-7 per draw); with 1/16 or better it is below 1e-28 and a report
+            // of exhaustion means the attempts were not per draw
+            if is_coin_exhaustion(&p.msg) && B::MODULUS_BITS == 62 && case.options.field_extension() == air::FieldExtension::Cubic {
                 ctx.skipped = Some("coin_exhausted");
                 return;
             }
@@ -199,7 +203,7 @@ pub fn spec() -> CheckSpec {
         stub: vec!["the byte source behind ReadAdapter (SimRead)", "SimAir / SimProver are the harness' computation family (thin wrappers over DefaultTraceLde / DefaultConstraintEvaluator)"],
         assumptions: vec![
             "the admissible class is the property's: options accepted by ProofOptions::new with a well-formed FRI schedule (folding^layers <= trace length) and fewer queries than LDE points",
-            "runs in which the coin exhausts its 1000 attempts are discarded (counted as skipped.coin_exhausted)",
+            "runs in which the coin exhausts its 1000 attempts are discarded only for the cubic extension of the 62-bit field, where that has probability ~1e-7 per draw (counted as skipped.coin_exhausted); elsewhere it is a violation",
             "workload dimensions are sampled swarm-style, not enumerated",
         ],
         arms,
